@@ -120,8 +120,26 @@ def _run(cmd, timeout, cwd=None, inp=None):
     return 124, (e.stdout or b'').decode() if isinstance(e.stdout, bytes) else (e.stdout or ''), 'TIMEOUT after %ss' % timeout
 
 
+_REQ = re.compile(r'(?:From\s+Scales\s+)?Require\s+(?:Import\s+|Export\s+)?(.*?)\.(?=\s|$)', re.S)
+
+
+def _direct(f):
+  """Direct project dependencies of one .v file (relative paths)."""
+  src = strip_comments(open(os.path.join(COQ, f), encoding='utf-8').read())
+  out = []
+  for m in _REQ.finditer(src):
+    for tok in m.group(1).split():
+      tok = tok.strip()
+      if tok.startswith('Scales.'):
+        tok = tok[len('Scales.'):]
+      cand = tok.replace('.', '/') + '.v'
+      if os.path.exists(os.path.join(COQ, cand)) and cand not in out:
+        out.append(cand)
+  return out
+
+
 def closure(vfile):
-  """Transitive set of project .v files required by vfile (paths relative to COQ)."""
+  """Transitive set of project .v files required by vfile (paths relative to COQ), vfile first."""
   seen = []
   todo = [vfile]
   while todo:
@@ -129,15 +147,7 @@ def closure(vfile):
     if f in seen:
       continue
     seen.append(f)
-    src = strip_comments(open(os.path.join(COQ, f), encoding='utf-8').read())
-    for m in re.finditer(r'(?:From\s+Scales\s+)?Require\s+(?:Import\s+|Export\s+)?([^.]*(?:\.[A-Za-z_][\w]*)*[^.]*)\.\s', src):
-      for tok in m.group(1).split():
-        tok = tok.strip()
-        if tok.startswith('Scales.'):
-          tok = tok[len('Scales.'):]
-        cand = tok.replace('.', '/') + '.v'
-        if os.path.exists(os.path.join(COQ, cand)):
-          todo.append(cand)
+    todo.extend(_direct(f))
   return seen
 
 
@@ -164,24 +174,6 @@ def build_all(jobs=16, timeout=3000):
   finally:
     fcntl.flock(lock, fcntl.LOCK_UN)
     lock.close()
-
-
-def _deps(f):
-  """Direct project dependencies of one .v file."""
-  return [d for d in closure(f)[1:] if d in _direct(f)]
-
-
-def _direct(f):
-  src = strip_comments(open(os.path.join(COQ, f), encoding='utf-8').read())
-  out = []
-  for m in re.finditer(r'(?:From\s+Scales\s+)?Require\s+(?:Import\s+|Export\s+)?([^.]*(?:\.[A-Za-z_][\w]*)*[^.]*)\.\s', src):
-    for tok in m.group(1).split():
-      if tok.startswith('Scales.'):
-        tok = tok[len('Scales.'):]
-      cand = tok.replace('.', '/') + '.v'
-      if os.path.exists(os.path.join(COQ, cand)) and cand not in out:
-        out.append(cand)
-  return out
 
 
 def topo(files):
